@@ -18,7 +18,7 @@ EXTENDS ClocRef, Json
 
 CONSTANTS Shape,         \* "bydir2" | "bydir3" | "bydir2w" | "top2q" | "top2" | "top3": which input family is enumerated
           Roots,         \* set of DIR spellings
-          ExtFilters,    \* set of include-ext lists, by name: "none" | "java" | "go" | "kt"
+          ExtFilters,    \* set of include-ext lists, by name: "none" | "java" | "go" | "kt" | "java,py"
           Tops,          \* set of --top-size values
           Stride         \* emit every Stride-th explored input as a replay case (1 = all)
 
@@ -130,8 +130,9 @@ FileJob(i) == [Location |-> Loc(i), Code |-> F(input, i).code, Comment |-> F(inp
 Summary(l, S, withFiles) ==
   [Name |-> l, Code |-> SumCode(input, S), Count |-> Cardinality(S),
    Files |-> IF withFiles THEN [k \in 1..Cardinality(S) |-> FileJob(SeqOfIdx(S)[k])] ELSE <<>>]
-Scc(p, allow, withFiles) ==
-  LET W == Walk(p, allow)
+\* one engine run over every path in DirFilePaths (a stale extra path would be counted too)
+Scc(paths, allow, withFiles) ==
+  LET W == UNION {Walk(paths[k], allow) : k \in DOMAIN paths}
   IN  SortSummaries({Summary(l, {i \in W : F(input, i).lang = l}, withFiles) : l \in {F(input, i).lang : i \in W}})
 
 -----------------------------------------------------------------------------
@@ -170,7 +171,7 @@ Start ==
 Run ==
   /\ pc = "run"
   /\ fs' = [n \in DOMAIN fs \cup {FileOutput} |->
-              IF n = FileOutput THEN Scc(DirFilePaths[1], AllowExt, Files) ELSE fs[n]]
+              IF n = FileOutput THEN Scc(DirFilePaths, AllowExt, Files) ELSE fs[n]]
   /\ nruns' = nruns + 1
   /\ pc' = ret
   /\ UNCHANGED <<srest, sacc>>
